@@ -26,6 +26,8 @@ from typing import TYPE_CHECKING
 from typing import Any
 from typing import ClassVar
 
+from numpy import array
+
 from gemseo.mda.base_mda import BaseMDA
 from gemseo.mda.sequential_mda_settings import MDASequential_Settings
 
@@ -95,3 +97,7 @@ class MDASequential(BaseMDA):
 
             if mda.normed_residual < self.settings.tolerance:
                 break
+
+        if self.NORMALIZED_RESIDUAL_NORM not in self.io.data:
+            # Some MDAs do not output their normalized residual norm.
+            self.io.data[self.NORMALIZED_RESIDUAL_NORM] = array([mda.normed_residual])
